@@ -29,7 +29,7 @@ func adv(ms int64) Action                { return Action{K: "adv", N: ms} }
 
 func (a Action) String() string {
 	switch a.K {
-	case "cmd":
+	case "cmd", "tcmd":
 		if a.C != 0 {
 			return fmt.Sprintf("c%d:%s", a.C, quoteArgs(a.A))
 		}
@@ -185,6 +185,9 @@ func (w *World) Do(a Action) StepOut {
 	switch a.K {
 	case "cmd":
 		return outOfReply(w.in.Do(a.C, a.A...))
+	case "tcmd": // timed command: the clock moves 1 ms first, so that every command has its own instant
+		verifrt.Advance(time.Millisecond, nil)
+		return outOfReply(w.in.Do(a.C, a.A...))
 	case "raw":
 		return outOfReply(w.in.DoRaw(a.C, []byte(a.A[0])))
 	case "emb":
@@ -288,6 +291,8 @@ type SeqSpec struct {
 	Alphabet func(pre *State, depth int) []Action
 	// Check judges one transition; path is the action sequence that led to pre.
 	Check func(path []Action, pre *State, a Action, out StepOut, post *State) []Finding
+	// Before is called with the live world just before an action is executed.
+	Before func(w *World)
 	// CheckW is like Check but also receives the live world (in the post-state).
 	CheckW func(w *World, path []Action, pre *State, a Action, out StepOut, post *State) []Finding
 	// Expand says whether post may be expanded further (state-size caps).
@@ -359,6 +364,9 @@ func runSeq(spec *SeqSpec, root []Action, firstFilter func(i int) bool, w *Worke
 				if !build() {
 					break
 				}
+			}
+			if spec.Before != nil {
+				spec.Before(wld)
 			}
 			out := wld.Do(a)
 			st.transitions++
